@@ -13,7 +13,7 @@ CHECKS = {
  "C03": dict(
   engine="GEN",
   technique="bounded-exhaustive enumeration of query trees x fact subsets x topologies on the real query evaluator against a reference evaluator (multiset equality)",
-  text="Every query tree up to depth 2 over 12 leaves, plus every tree with an operator directly under an operator over a 3-leaf pool (quick; over a 6-leaf pool in thorough), built from 12 leaves (empty, four patterns sharing variables, seven code templates) with and/or/or+shortCircuit of arity 0..2 and not, is evaluated on every subset of a 4-fact universe, with the facts local or split between the location and its parent, by Location.Query and, wrapped as a rule condition, by ProcessEvent; results (or the error) are compared as multisets with a 60-line reference evaluator written from the property statement.",
+  text="Every query tree up to depth 2 over 12 leaves, plus every tree with an operator directly under an operator over a 4-leaf pool (quick; over a 6-leaf pool in thorough), built from 12 leaves (empty, four patterns sharing variables, seven code templates) with and/or/or+shortCircuit of arity 0..2 and not, is evaluated on every subset of a 4-fact universe, with the facts local or split between the location and its parent, by Location.Query and, wrapped as a rule condition, by ProcessEvent; results (or the error) are compared as multisets with a 60-line reference evaluator written from the property statement.",
   note="Trusts core.Matches for fact matching (C05) and the native evaluation of the seven code templates in the reference. Bounded tree depth/arity.",
   design="2/C03"),
  "C06": dict(
